@@ -77,7 +77,8 @@ SPEC = dict(
          "each asked at many rates on two independently constructed real samplers (DeterministicSampler: struct+Start and "
          "through SamplerFactory; StressRelief after UpdateFromConfig): small rates, the critical rates floor(U/h)-1..+1 of "
          "that very hash value, boundaries 1, 2, 65535..65537, 2^31-1..2^31+1, 2^32-2, 2^32-1 (stress: 0, 2^32, 2^63, 2^64-1), "
-         "log-uniform rates, and (deterministic only) rates outside 1..2^32-1 that validation accepts (0, negative, >= 2^32); "
+         "log-uniform rates, and (deterministic only) rates outside 1..2^32-1 that validation accepts (0, negative, multiples of "
+         "2^32, >= 2^32, MaxInt64, MinInt64: since the C28 repair they must keep all / nest like every other rate); "
          "interleaved (30% of ops) a history on ONE long-lived real StressRelief per case (real Start, loop off): sreload "
          "<mode> <rate> (UpdateFromConfig), srecalc (Recalc sets stressed from the mode), sask <id> answered by the long-lived "
          "instance and by a fresh one at the rate configured last; "
@@ -91,18 +92,18 @@ SPEC = dict(
              "two instances agree, rate <= 1 keeps everything, keep <=> hash*rate <= MaxUint (threshold floor(U/rate)), nesting "
              "(kept at N => kept at every M <= N), after any history of reloads and stressed/unstressed changes a long-lived StressRelief "
              "decides by the last configured rate only (stress_history_independent), and exactly ceil(2^w/N) of the 2^w hash values are kept (fraction in [1/N, 1/N+2^-w)); "
-             "fixed-width effects (uint32(int) truncation, division by zero at Start) are modelled as they are in the code. The model is "
+             "the deterministic sampler's theorems hold for every int rate (Start divides in 64 bits and only for rate > 1: never panics, "
+             "rates <= 1 keep everything, rates >= 2^32 keep only hash 0). The model is "
              "tied to sample/deterministic.go and collect/stressRelief.go by replaying generated (trace ID, rate) pairs on the real "
              "samplers, with the real SHA-1/wyhash value passed as data, and comparing keep, rate and reason with the model; a monitor "
              "checks agreement, purity, nesting, rate<=1 and (as a statistical test) the kept fraction on the real answers.",
         note="Trusted: Lean kernel; the differential check (sampled); SHA-1/wyhash uniformity over trace IDs is an assumption "
-             "(only tested empirically). Rates 0 and multiples of 2^32 (Start panics) and rates >= 2^32 (truncated) are outside "
-             "C10's quantifier and reported for C28.",
+             "(only tested empirically). Before commit 2ccad7d rates 0 / multiples of 2^32 panicked in Start and rates >= 2^32 were "
+             "truncated (reported for C28); the repaired code is what the model mirrors and those rates stay in the generator and corpus.",
         technique="Lean 4 proof (threshold arithmetic over Nat/Int with explicit truncation) + model/implementation correspondence check",
     ),
     assumptions=["int and uint are 64 bits wide (amd64/arm64)",
                  "the hash of a trace ID (SHA-1 prefix with the package salt / wyhash with the package seed) is a fixed function; "
                  "its uniformity over real trace IDs is assumed, not proved (empirical test only)",
-                 "deterministic sampler theorems cover 1 <= rate < 2^32 (a superset of the property's 1..2^31); "
-                 "rates outside are modelled and compared with the code but are C28's concern"],
+                 "deterministic sampler theorems cover every int rate (unbounded Int in the model; Go's int is 64 bits)"],
 )
